@@ -147,7 +147,7 @@ impl Sectors {
 //@@ sig
     ensures
         //# C13.sectors_new
-        r.sz() == size && r.loaded() == data@,
+        r.sz() == size && r.loaded() == data@ && ((size == 64 || size == 512 || size == 4096) ==> r.wf()),
 //@@ end
 //@@ fn src/cfb.rs Sectors::get props=C13 entry ret=res
 //@@ sig
@@ -329,18 +329,23 @@ map_err(|e| -> (ce: CfbError) ensures ce is Io { CfbError::Io(e) })
 
 /// items an iterator will yield (used for `to_u32`'s opaque `impl ExactSizeIterator` and `Vec::extend`)
 pub uninterp spec fn iter_items<I: IntoIterator>(it: I) -> Seq<I::Item>;
+// TRUSTED: (A-std) for an `Iterator`, `IntoIterator::into_iter` is the identity (std blanket impl): its items are what remains
+#[verifier::external_body]
+pub broadcast proof fn axiom_iter_items<I: Iterator>(it: I)
+    ensures #[trigger] iter_items(it) == IteratorSpec::remaining(&it) {}
 // TRUSTED: (A-std) `Vec::extend` appends the items of the iterator, in order
 pub assume_specification<T, A: std::alloc::Allocator, I: IntoIterator<Item = T>>[ <Vec<T, A> as Extend<T>>::extend ](v: &mut Vec<T, A>, it: I)
     ensures final(v)@ == old(v)@ + iter_items(it);
 /// little-endian u32 words of a byte string whose length is a multiple of 4
 pub open spec fn le32_words(s: Seq<u8>) -> Seq<u32> { Seq::new(s.len() / 4, |i: int| le32(s.subrange(4 * i, 4 * i + 4)) as u32) }
 
-//@@ fn src/utils.rs to_u32 external_body ret=r
+//@@ fn src/utils.rs to_u32 external_body by=to_u32_words ret=r
 //@@ sig
     requires
         s@.len() % 4 == 0,
     ensures
-        iter_items(r) == le32_words(s@),
+        IteratorSpec::remaining(&r) == le32_words(s@),
+        IteratorSpec::obeys_prophetic_iter_laws(&r),
 //@@ end
 
 // [MS-CFB] 2.2 compound file header (first 512 bytes), field offsets from the specification
@@ -414,6 +419,7 @@ proof fn lemma_signature(h: Seq<u8>)
             Err(_) => true,
         },
 //@@ body
+        broadcast use axiom_iter_items;
         let ghost inp = (*f).rem();
 //@@ before /if signature != /
         proof {
@@ -586,7 +592,13 @@ pub open spec fn difat_walk(data: Seq<u8>, size: int, next: u32, fuel: nat) -> O
     }
 }
 /// DIFAT entries that name a FAT sector (FREESECT and the other special values do not)
-pub open spec fn fat_sector_ids(d: Seq<u32>) -> Seq<u32> { d.filter(|id: u32| id < 0xFFFF_FFFCu32) }
+pub open spec fn fat_sector_ids(d: Seq<u32>) -> Seq<u32>
+    decreases d.len()
+{
+    if d.len() == 0 { Seq::<u32>::empty() }
+    else if d.last() < 0xFFFF_FFFCu32 { fat_sector_ids(d.drop_last()).push(d.last()) }
+    else { fat_sector_ids(d.drop_last()) }
+}
 /// the FAT: concatenation of the FAT sectors read as little-endian u32 words
 pub open spec fn fat_of(data: Seq<u8>, size: int, ids: Seq<u32>) -> Seq<u32>
     decreases ids.len()
@@ -674,12 +686,169 @@ proof fn witness_layout_independent()
 }
 //@@ props C13,C20,C06
 
+/// a well-formed DIFAT walk does not depend on the fuel
+proof fn lemma_walk_fuel(data: Seq<u8>, size: int, next: u32, f1: nat, f2: nat)
+    requires difat_walk(data, size, next, f1) is Some, difat_walk(data, size, next, f2) is Some,
+    ensures difat_walk(data, size, next, f1) == difat_walk(data, size, next, f2),
+    decreases f1,
+{
+    if next < 0xFFFF_FFFAu32 {
+        let w = le32_words(sector(data, size, next as int));
+        lemma_walk_fuel(data, size, w.last(), (f1 - 1) as nat, (f2 - 1) as nat);
+    }
+}
+proof fn lemma_stream_fuel(data: Seq<u8>, size: int, fat: Seq<u32>, start: u32, len: int, f1: nat, f2: nat)
+    requires chain_ok(data, size, fat, start, f1), chain_ok(data, size, fat, start, f2),
+    ensures stream_bytes(data, size, fat, start, len, f1) == stream_bytes(data, size, fat, start, len, f2),
+{
+    lemma_chain_fuel(fat, start, f1, f2);
+}
+/// everything `cfb_parse` asserts about a well-formed container, in one place (keeps `cfb_parse` opaque elsewhere)
+pub open spec fn parse_facts(inp: Seq<u8>, f: nat) -> bool {
+    let size = hdr_sector_size(inp);
+    let data = inp.skip(size);
+    let walk = difat_walk(data, size, hdr_first_difat_sector(inp) as u32, f);
+    let ids = fat_sector_ids(hdr_difat(inp) + walk.unwrap());
+    let fat = fat_of(data, size, ids);
+    let dir_start = hdr_first_dir_sector(inp) as u32;
+    let mf_start = hdr_first_mini_fat_sector(inp) as u32;
+    let p = cfb_parse(inp, f).unwrap();
+    &&& hdr_valid(inp)
+    &&& inp.len() >= size
+    &&& walk is Some
+    &&& all_in(data, size, ids)
+    &&& chain_ok(data, size, fat, dir_start, f)
+    &&& p.size == size && p.data == data && p.fat == fat
+    &&& p.dirs == dir_entries(stream_bytes(data, size, fat, dir_start, hdr_num_dir_sectors(inp) * size, f), size)
+    &&& p.dirs.len() > 0
+    &&& !(hdr_major_version(inp) != 3 && p.dirs[0].start == 0xFFFF_FFFEu32)
+    &&& (hdr_num_mini_fat_sectors(inp) == 0 ==> p.mini_fat == Seq::<u32>::empty() && p.mini_stream == Seq::<u8>::empty())
+    &&& (hdr_num_mini_fat_sectors(inp) != 0 ==> chain_ok(data, size, fat, p.dirs[0].start, f) && chain_ok(data, size, fat, mf_start, f)
+            && p.mini_fat == le32_words(stream_bytes(data, size, fat, mf_start, hdr_num_mini_fat_sectors(inp) * size, f))
+            && p.mini_stream == stream_bytes(data, size, fat, p.dirs[0].start, p.dirs[0].len as int, f))
+}
+proof fn lemma_parse_unfold(inp: Seq<u8>, f: nat)
+    requires cfb_parse(inp, f) is Some,
+    ensures parse_facts(inp, f),
+{
+    reveal(cfb_parse);
+}
+/// the logical content of a well-formed container does not depend on the fuel
+proof fn lemma_parse_fuel(inp: Seq<u8>, f1: nat, f2: nat)
+    requires cfb_parse(inp, f1) is Some, cfb_parse(inp, f2) is Some,
+    ensures cfb_parse(inp, f1) == cfb_parse(inp, f2),
+{
+    lemma_parse_unfold(inp, f1);
+    lemma_parse_unfold(inp, f2);
+    let size = hdr_sector_size(inp);
+    let data = inp.skip(size);
+    lemma_walk_fuel(data, size, hdr_first_difat_sector(inp) as u32, f1, f2);
+    let walk = difat_walk(data, size, hdr_first_difat_sector(inp) as u32, f1);
+    let ids = fat_sector_ids(hdr_difat(inp) + walk.unwrap());
+    let fat = fat_of(data, size, ids);
+    let dir_start = hdr_first_dir_sector(inp) as u32;
+    lemma_stream_fuel(data, size, fat, dir_start, hdr_num_dir_sectors(inp) * size, f1, f2);
+    let p1 = cfb_parse(inp, f1).unwrap();
+    let p2 = cfb_parse(inp, f2).unwrap();
+    assert(p1.dirs == p2.dirs);
+    if hdr_num_mini_fat_sectors(inp) != 0 {
+        let mf_start = hdr_first_mini_fat_sector(inp) as u32;
+        lemma_stream_fuel(data, size, fat, mf_start, hdr_num_mini_fat_sectors(inp) * size, f1, f2);
+        lemma_stream_fuel(data, size, fat, p1.dirs[0].start, p1.dirs[0].len as int, f1, f2);
+    }
+    assert(p1 == p2);
+}
+/// all sectors of a chain inside the data: the concatenation has ids.len() * size bytes
+proof fn lemma_chain_bytes_len(data: Seq<u8>, size: int, ids: Seq<u32>)
+    requires size > 0, all_in(data, size, ids),
+    ensures chain_bytes(data, size, ids).len() == ids.len() * size,
+    decreases ids.len(),
+{
+    if ids.len() > 0 {
+        let id = ids.last() as int;
+        assert(sector_in(data, size, ids[ids.len() - 1] as int));
+        assert forall|i: int| 0 <= i < ids.drop_last().len() implies sector_in(data, size, #[trigger] ids.drop_last()[i] as int) by {
+            assert(ids.drop_last()[i] == ids[i]);
+        }
+        lemma_chain_bytes_len(data, size, ids.drop_last());
+        assert(id * size >= 0) by (nonlinear_arith) requires id >= 0, size > 0;
+        assert((id + 1) * size == id * size + size) by (nonlinear_arith);
+        assert(sector(data, size, id).len() == size);
+        assert(ids.len() * size == (ids.len() - 1) * size + size) by (nonlinear_arith);
+    }
+}
+
+/// directory stream length: full sectors (512 or 4096 bytes), possibly cut to a whole number of sectors: a multiple of 128
+proof fn lemma_dir_stream_len(nsect: int, ndir: int, size: int)
+    requires nsect >= 0, ndir >= 0, size == 512 || size == 4096,
+    ensures (nsect * size) % 128 == 0, (ndir * size) % 128 == 0,
+{
+    assert((nsect * size) % 128 == 0) by (nonlinear_arith) requires size == 512 || size == 4096;
+    assert((ndir * size) % 128 == 0) by (nonlinear_arith) requires size == 512 || size == 4096;
+}
+/// chunks of a stream whose length is a multiple of 128 are exactly its 128-byte entries
+proof fn lemma_chunks_128(s: Seq<u8>)
+    requires s.len() % 128 == 0,
+    ensures
+        chunk_seq(s, 128).len() == s.len() / 128,
+        forall|i: int| 0 <= i < s.len() / 128 ==> #[trigger] chunk_seq(s, 128)[i] == s.subrange(128 * i, 128 * i + 128),
+{
+}
+
 proof fn lemma_parse_needs_header(inp: Seq<u8>, fuel: nat)
     ensures cfb_parse(inp, fuel) is Some ==> hdr_valid(inp),
 {
     reveal(cfb_parse);
 }
 
+// ---------------------------------------------------------------- std iterator pieces used by Cfb::new
+#[verifier::external_type_specification] #[verifier::external_body] #[verifier::reject_recursive_types(T)]
+pub struct ExChunks<'a, T: 'a>(std::slice::Chunks<'a, T>);
+/// consecutive chunks of `n` elements, the last one possibly shorter
+pub open spec fn chunk_seq<T>(s: Seq<T>, n: int) -> Seq<Seq<T>> {
+    Seq::new(((s.len() + n - 1) / n) as nat, |i: int| s.subrange(i * n, if (i + 1) * n <= s.len() { (i + 1) * n } else { s.len() as int }))
+}
+// TRUSTED: (A-chunks) documented behaviour of `<[T]>::chunks`: panics for n == 0, otherwise yields `chunk_seq(s, n)` in order
+pub assume_specification<T>[ <[T]>::chunks ](s: &[T], n: usize) -> (r: std::slice::Chunks<'_, T>)
+    requires n != 0,
+    ensures
+        IteratorSpec::obeys_prophetic_iter_laws(&r),
+        IteratorSpec::remaining(&r).len() == chunk_seq(s@, n as int).len(),
+        forall|i: int| 0 <= i < chunk_seq(s@, n as int).len() ==> (#[trigger] IteratorSpec::remaining(&r)[i])@ == chunk_seq(s@, n as int)[i];
+
+/// subsequence of `s` at the positions where `k` is true
+pub open spec fn selk<T>(s: Seq<T>, k: Seq<bool>) -> Seq<T>
+    decreases s.len()
+{
+    if s.len() == 0 { Seq::<T>::empty() }
+    else if k[s.len() - 1] { selk(s.drop_last(), k).push(s.last()) }
+    else { selk(s.drop_last(), k) }
+}
+pub uninterp spec fn filter_kept<I, P>(f: std::iter::Filter<I, P>) -> Seq<bool>;
+// TRUSTED: (A-std) documented behaviour of `Iterator::filter`: the adapter yields, in order, exactly the inner items for which
+// the predicate returned true (`filter_kept` names the predicate's answers); vstd's own Filter model does not expose this.
+#[verifier::external_body]
+pub broadcast proof fn axiom_filter_remaining<I: Iterator, P: FnMut(&I::Item) -> bool>(ii: I, p: P, f: std::iter::Filter<I, P>)
+    requires #[trigger] vstd::std_specs::iter::filter_post(ii, p, f),
+    ensures
+        IteratorSpec::remaining(&f) == selk(IteratorSpec::remaining(&ii), filter_kept(f)),
+        filter_kept(f).len() == IteratorSpec::remaining(&ii).len(),
+        forall|i: int| 0 <= i < filter_kept(f).len() ==> (if #[trigger] filter_kept(f)[i] { call_ensures(p, (&IteratorSpec::remaining(&ii)[i],), true) } else { call_ensures(p, (&IteratorSpec::remaining(&ii)[i],), false) }),
+{}
+/// (proved) selecting with the answers of `|id| *id < DIFSECT` is `fat_sector_ids`
+pub broadcast proof fn lemma_selk_fat_ids(s: Seq<u32>, k: Seq<bool>)
+    requires k.len() >= s.len(), forall|i: int| 0 <= i < s.len() ==> #[trigger] k[i] == (s[i] < 0xFFFF_FFFCu32),
+    ensures #[trigger] selk(s, k) == fat_sector_ids(s),
+    decreases s.len(),
+{
+    if s.len() > 0 {
+        assert(k[s.len() - 1] == (s[s.len() - 1] < 0xFFFF_FFFCu32));
+        assert forall|i: int| 0 <= i < s.drop_last().len() implies #[trigger] k[i] == (s.drop_last()[i] < 0xFFFF_FFFCu32) by { assert(s.drop_last()[i] == s[i]); }
+        lemma_selk_fat_ids(s.drop_last(), k);
+    }
+}
+
+#[verifier::loop_isolation(false)]
 //@@ impl src/cfb.rs Cfb
 //@@ fn src/cfb.rs Cfb::has_directory props=C13,C20 ret=b
 //@@ sig
@@ -756,11 +925,9 @@ proof fn lemma_parse_needs_header(inp: Seq<u8>, fuel: nat)
                         }
                     }
 //@@ end
-//@@ fn src/cfb.rs Cfb::new props=C13,C20 external_body ret=res
+//@@ fn src/cfb.rs Cfb::new props=C13,C20 entry ret=res
 //@@ sig
     ensures
-        // TRUSTED: contract of `Cfb::new` ASSUMED in Verus (body uses `impl Trait` iterators, `filter`/`map`/`collect` closures);
-        // stated from [MS-CFB] (`cfb_parse`), explored by the bounded Kani harness `cfb::new_small_image` only.
         //# C13,C20.new_rejects_invalid_header
         !hdr_valid((*old(reader)).rem()) ==> res is Err,
         //# C13.new_parses_container
@@ -778,6 +945,129 @@ proof fn lemma_parse_needs_header(inp: Seq<u8>, fuel: nat)
             },
             Err(e) => e is Io && (*final(reader)).io_failed(),
         }),
+//@@ body
+        broadcast use axiom_iter_items, axiom_filter_remaining, lemma_selk_fat_ids;
+        let ghost inp = (*reader).rem();
+        let ghost io0 = (*reader).io_failed();
+        // the container is well formed ([MS-CFB], `cfb_parse`) for some fuel f0: hypothesis of the functional clause
+        let ghost ok = exists|f: nat| cfb_parse(inp, f) is Some;
+        let ghost f0 = choose|f: nat| cfb_parse(inp, f) is Some;
+        proof { if ok { lemma_parse_unfold(inp, f0); } }
+//@@ after /let \(h, mut difat\) = [^;]*;/
+        let ghost size = h.sector_size as int;
+        let ghost data = inp.skip(size);
+        let ghost walk = difat_walk(data, size, h.difat_start, f0).unwrap();
+        let ghost full = hdr_difat(inp) + walk;
+        let ghost ids = fat_sector_ids(full);
+        let ghost fat = fat_of(data, size, ids);
+        let ghost pp = cfb_parse(inp, f0).unwrap();
+        let ghost mut fl: nat = f0;
+        proof { assert(size == 512 || size == 4096); }
+//@@ after /let mut sectors = [^;]*;/
+        proof { assert(sectors.total(reader) =~= data); }
+//@@ loop 0
+            invariant
+                sectors.wf(), sectors.sz() == size,
+                (*reader).io_failed() == io0,
+                ok ==> sectors.total(reader) == data,
+                ok ==> difat_walk(data, size, sector_id, fl) is Some && difat@ + difat_walk(data, size, sector_id, fl).unwrap() == full,
+            decreases fl,
+//@@ before /difat\.extend\(/
+            let ghost sid = sector_id;
+            let ghost d0 = difat@;
+            let ghost w = le32_words(sector(data, size, sid as int));
+            proof {
+                if ok {
+                    assert(fl > 0 && sector_in(data, size, sid as int));
+                    assert(difat_walk(data, size, sid, fl).unwrap() == w.drop_last() + difat_walk(data, size, w.last(), (fl - 1) as nat).unwrap());
+                    assert((sid as int + 1) * size == sid as int * size + size) by (nonlinear_arith);
+                    assert(sector(data, size, sid as int).len() == size);
+                    assert(w.len() >= 128);
+                }
+            }
+//@@ after /sector_id = difat\.pop\(\)[^;]*;[^\n]*/
+            proof {
+                if ok {
+                    assert(difat@ =~= d0 + w.drop_last());
+                    assert(sector_id == w.last());
+                    let rest = difat_walk(data, size, w.last(), (fl - 1) as nat).unwrap();
+                    assert((d0 + w.drop_last()) + rest =~= d0 + (w.drop_last() + rest));
+                    fl = (fl - 1) as nat;
+                }
+            }
+//@@ before /let mut fats = /
+        let ghost difat0 = difat@;
+        proof {
+            if ok {
+                assert(difat_walk(data, size, sector_id, fl).unwrap() =~= Seq::<u32>::empty());
+                assert(difat@ =~= full);
+            }
+        }
+        //# C06.alloc_bound_fat_capacity
+        assert(alloc_le(h.fat_len as int, inp.len() as int)) by { reveal(alloc_le); }
+//@@ loop 1 it
+            invariant
+                sectors.wf(), sectors.sz() == size,
+                (*reader).io_failed() == io0,
+                it.seq() == fat_sector_ids(difat0),
+                ok ==> sectors.total(reader) == data,
+                ok ==> fats@ == fat_of(data, size, ids.take(it.index@ as int)),
+//@@ before /fats\.extend\(/
+            let ghost k = it.index@ as int;
+            let ghost fats0 = fats@;
+            proof {
+                if ok {
+                    assert(id == ids[k]);
+                    assert(sector_in(data, size, ids[k] as int));
+                    assert((id as int + 1) * size == id as int * size + size) by (nonlinear_arith);
+                    assert(sector(data, size, id as int).len() == size);
+                }
+            }
+//@@ after /fats\.extend\([^;]*;/
+            proof {
+                if ok {
+                    assert(fats@ == fats0 + le32_words(sector(data, size, id as int)));
+                    assert(ids.take(k + 1).drop_last() =~= ids.take(k));
+                    assert(ids.take(k + 1).last() == ids[k]);
+                }
+            }
+//@@ before /let dirs = sectors\.get_chain/
+        proof {
+            if ok {
+                assert(ids.take(ids.len() as int) =~= ids);
+                assert(fats@ == fat);
+            }
+            assert(h.dir_len as int * h.sector_size as int <= 0xFFFF_FFFF * 4096) by (nonlinear_arith) requires 0 <= h.dir_len as int <= 0xFFFF_FFFF, 0 <= h.sector_size as int <= 4096;
+            assert(0 <= h.dir_len as int * h.sector_size as int) by (nonlinear_arith) requires 0 <= h.dir_len as int, 0 <= h.sector_size as int;
+        }
+//@@ before /let dirs = dirs/
+        let ghost dstream = dirs@;
+        proof {
+            if ok {
+                assert(dstream == stream_bytes(data, size, fat, h.dir_start, hdr_num_dir_sectors(inp) * size, f0));
+                lemma_chain_bytes_len(data, size, fat_chain(fat, h.dir_start, f0).unwrap());
+                lemma_dir_stream_len(fat_chain(fat, h.dir_start, f0).unwrap().len() as int, hdr_num_dir_sectors(inp), size);
+                assert(dstream.len() % 128 == 0);
+                lemma_chunks_128(dstream);
+            }
+        }
+//@@ before /if dirs\.is_empty\(\)/
+        proof {
+            if ok {
+                assert(dirs@.len() == dstream.len() / 128);
+                assert forall|i: int| 0 <= i < dirs@.len() implies #[trigger] dirs@[i].ent() == dir_entries(dstream, size)[i] by {
+                    lemma_chunks_128(dstream);
+                }
+            }
+        }
+//@@ replace /\|id\| / closure parameter and result annotated so that its (verified) postcondition is visible to `filter`; body unchanged
+|id: &u32| -> (b: bool) ensures b == (*id < DIFSECT) { 
+//@@ after /\|id\| [^)]*/
+ }
+//@@ replace /\|c\| / closure parameter and result annotated with the contract of Directory::from_slice; body unchanged
+|c: &[u8]| -> (d: Directory) requires c@.len() >= 128 ensures d.ent() == dir_ent(c@.subrange(0, 128), h.sector_size as int) { 
+//@@ after /\|c\| [^)]*\)/
+ }
 //@@ end
 //@@ endimpl
 
